@@ -23,12 +23,9 @@ EXHAUSTIVE_NOTE = ("IPv4 with B in 20..32: all 2^(32-B) leading patterns enumera
 
 def cases(ctx):
     rng = ctx.rng
-    ncfg = ctx.per_shard(ctx.pick(240, 6000))
+    ncfg = ctx.per_shard(ctx.pick(400, 8000))
     n4 = ctx.pick(1500, 12000)
     n6 = ctx.pick(300, 1500)
-    for cfg in ipgen.configs(rng, ncfg, quick=ctx.quick):
-        yield {"kind": "sampled", "cfg": cfg, "n": n4 if cfg["fam"] == 4 else n6,
-               "aseed": rng.getrandbits(32)}
     # exhaustive over the anonymized part of the real IPv4 class
     nex = ctx.per_shard(ctx.pick(24, 600))
     for i in range(nex):
@@ -42,6 +39,13 @@ def cases(ctx):
         W = rng.randint(1, 8 if ctx.quick else 10)
         yield {"kind": "smallw", "W": W, "B": rng.randint(0, W), "salt": rng.choice(ipgen.SALTS + ["s%d" % rng.getrandbits(20)]),
                "salter": rng.choice(ipgen.SALTERS)}
+    # a long-lived anonymizer: tens of thousands of memo entries before the last requests
+    for cfg in ipgen.configs(rng, ctx.pick(1, 4), fam=4, quick=ctx.quick):
+        cfg["salter"] = "default"
+        yield {"kind": "sampled", "cfg": cfg, "n": ctx.pick(9000, 40000), "aseed": rng.getrandbits(32), "long": True}
+    for cfg in ipgen.configs(rng, ncfg, quick=ctx.quick):
+        yield {"kind": "sampled", "cfg": cfg, "n": n4 if cfg["fam"] == 4 else n6,
+               "aseed": rng.getrandbits(32)}
 
 
 def _report_pairs(ctx, case, L, pairs, fmap, tag):
